@@ -31,14 +31,23 @@ class ClassModel:
         self.mod_env: dict[str, dict[str, Any]] = {r: {} for r in self.rels}
         self.class_rel: dict[str, str] = {}
         self.func_rel: dict[int, str] = {}
-        for r in self.rels:
+        # helpers the modelled files import from other modules of the package (`from .pairs import locate_line`,
+        # `from pest.lines import LineTable`): those modules join the model, behind the named ones (a name the named
+        # files define keeps its meaning)
+        explicit = len(self.rels)
+        self._follow_imports()
+        for i, r in enumerate(self.rels):
             m = repo.mod(r)
             for cname, c in m.classes().items():
                 if cname not in self.classes:
                     self.classes[cname] = c
                     self.class_rel[cname] = r
+            seen_here: set[str] = set()
             for n in m.tree.body:
                 if isinstance(n, ast.FunctionDef):
+                    if i >= explicit and n.name in self.functions and n.name not in seen_here:
+                        continue  # an imported module does not redefine a function of the named files
+                    seen_here.add(n.name)
                     self.functions[n.name] = n  # last definition wins (overloads)
                     self.func_rel[id(n)] = r
             for k, v in m.constants().items():
@@ -70,6 +79,45 @@ class ClassModel:
         self.env.update(extra_env or {})
         self._cache: dict[tuple[str, str], Callable | None] = {}
         self.load_tables()
+
+    def _follow_imports(self) -> None:
+        """Append to self.rels the package modules from which the modelled files import functions or classes that are
+        called in them (transitively, at most a handful: the package is small)."""
+        py = set(self.repo.py_files)
+        work = list(self.rels)
+        while work:
+            r = work.pop(0)
+            if r not in py:
+                continue
+            tree = self.repo.mod(r).tree
+            called = {n.func.id for n in ast.walk(tree) if isinstance(n, ast.Call) and isinstance(n.func, ast.Name)}
+            for n in ast.walk(tree):
+                if not isinstance(n, ast.ImportFrom) or not any((a.asname or a.name) in called for a in n.names):
+                    continue
+                mod = n.module or ""
+                if n.level:
+                    base = r.rsplit("/", n.level)[0]
+                    cand = f"{base}/{mod.replace('.', '/')}" if mod else base
+                elif mod == "pest" or mod.startswith("pest."):
+                    cand = "src/" + mod.replace(".", "/")
+                else:
+                    continue
+                for rel in (cand + ".py", cand + "/__init__.py"):
+                    if rel in py and rel not in self.rels:
+                        target = self.repo.mod(rel)
+                        names = {a.name for a in n.names if (a.asname or a.name) in called}
+                        if names & (set(target.functions()) | set(target.classes())):
+                            self.rels.append(rel)
+                            self.mod_env.setdefault(rel, {})
+                            work.append(rel)
+                        elif rel.endswith("__init__.py"):
+                            # re-exported through the package: find the module that defines the name
+                            for rel2 in sorted(py):
+                                t2 = self.repo.mod(rel2)
+                                if rel2 not in self.rels and names & (set(t2.functions()) | set(t2.classes())) and rel2.startswith(cand):
+                                    self.rels.append(rel2)
+                                    self.mod_env.setdefault(rel2, {})
+                                    work.append(rel2)
 
     def load_tables(self) -> None:
         """Module-level tables (dict / set / tuple displays over constants, enum members, compiled patterns), in
@@ -299,6 +347,7 @@ def count_checkpoints(cm: ClassModel, st: Obj) -> None:
     """Count open checkpoints by the calls themselves (checkpoint() opens one, ok() and restore() close one), whatever
     the state keeps them in: every `state.checkpoint()` the evaluated source performs goes through these wrappers."""
     st.__dict__["_sa_open"] = 0
+    st.__dict__["_sa_cm"] = cm
 
     def wrap(name: str, delta: int):  # noqa: ANN202
         m = None
@@ -318,6 +367,32 @@ def count_checkpoints(cm: ClassModel, st: Obj) -> None:
 
     for name, delta in (("checkpoint", 1), ("ok", -1), ("restore", -1)):
         st.__dict__[name] = wrap(name, delta)
+
+
+def counter_value(st: Obj, counter: Any) -> Any:
+    """The integer a snapshotting counter of the model state holds, read through its own __int__ (whatever its
+    fields are called); a recorder stub or plain int is returned as it is."""
+    if isinstance(counter, Obj) and "Recorder" not in counter.kinds:
+        cm = st.__dict__.get("_sa_cm")
+        if cm is not None:
+            for k in counter.kinds:
+                m = cm.get((k, "__int__"))
+                if m is not None:
+                    return m(counter)
+        return counter.__dict__.get("_value")
+    return counter.__dict__.get("_value") if isinstance(counter, Obj) else counter
+
+
+def stack_items(st: Obj, stack: Any) -> list:
+    """The entries of a model Stack bottom to top, read through its own __iter__ (whatever it keeps them in)."""
+    if isinstance(stack, Obj) and "Recorder" not in stack.kinds:
+        cm = st.__dict__.get("_sa_cm")
+        if cm is not None:
+            for k in stack.kinds:
+                m = cm.get((k, "__iter__"))
+                if m is not None:
+                    return list(m(stack))
+    return list(stack.__dict__.get("items", [])) if isinstance(stack, Obj) else list(stack)
 
 
 def open_checkpoints(st: Obj) -> int:
